@@ -605,3 +605,51 @@ def rule_outcome_used(ctx: Ctx) -> None:
                              construct=f"{fn.name}: measurement outcome `{name}` never read")
     if n == 0:
         raise AnalysisError("measure.outcome-used: no z_measurement_gate call found")
+
+
+# --------------------------------------------------------------------------- sign.carry
+
+_MATRIX_ATTRS = {"stabilizer", "destabilizer", "table", "x_matrix", "z_matrix", "stabilizer_x", "stabilizer_z", "destabilizer_x", "destabilizer_z",
+                 "table_x", "table_z", "_table"}
+
+
+def rule_sign_carry(ctx: Ctx, rels: List[str]) -> None:
+    """sign.carry: a tableau object built from the *matrices* of another tableau (`StabilizerTableau(t.stabilizer)`,
+    `StabilizerTableau([t.x_matrix, t.z_matrix])`, ...) also receives that tableau's sign vector; a one-argument construction
+    silently resets every sign to +, i.e. turns the state into a different (orthogonal) one whenever a generator was negative."""
+    repo = ctx.repo
+    n = 0
+    for rel in rels:
+        m = repo.module(rel)
+        for fn in [f for f in ast.walk(m.tree) if isinstance(f, ast.FunctionDef)]:
+            env = {}
+            for a in ast.walk(fn):
+                if isinstance(a, ast.Assign) and len(a.targets) == 1 and isinstance(a.targets[0], ast.Name):
+                    env.setdefault(a.targets[0].id, []).append(a.value)
+            for c in calls_in(fn):
+                cn = (call_name(c) or "").split(".")[-1]
+                if cn not in ("StabilizerTableau", "CliffordTableau") or not c.args:
+                    continue
+                n += 1
+                a0 = c.args[0]
+                exprs = [a0]
+                for x in ast.walk(a0):
+                    if isinstance(x, ast.Name) and x.id in env:
+                        exprs += env[x.id]
+                owners = {norm(x.value) for e in exprs for x in ast.walk(e) if isinstance(x, ast.Attribute) and x.attr in _MATRIX_ATTRS
+                          and isinstance(x.value, ast.Name) and x.value.id != "self"}
+                if not owners:
+                    ctx.ok("sign.carry", m, c, what=f"{fn.name}: `{short(c, 50)}` is not built from another tableau's matrices")
+                    continue
+                ctx.touch(m, fn)
+                phase_args = list(c.args[1:]) + [k.value for k in c.keywords if k.arg in ("phase", "iphase")]
+                carried = any(isinstance(x, ast.Attribute) and x.attr in ("phase", "_phase") and norm(x.value) in owners for p in phase_args for x in ast.walk(p))
+                if carried:
+                    ctx.ok("sign.carry", m, c, what=f"{fn.name}: matrices and sign vector taken from the same tableau")
+                else:
+                    ctx.fail("sign.carry", m, c,
+                             f"{fn.name} builds `{short(c, 70)}` from the matrices of {sorted(owners)} without its sign vector: every generator of the new "
+                             f"tableau is positive, so a state with a negative generator (a graph state after a Z, X or P_dag, say) becomes a "
+                             f"different, orthogonal state", func=fn.name, construct=f"{fn.name}: tableau rebuilt from {sorted(owners)} without signs")
+    if n == 0:
+        raise AnalysisError("sign.carry: no tableau construction found in " + ", ".join(rels))
